@@ -197,6 +197,7 @@ func closedGuarded(c *Ctx, e *lckEngine, fn *ssa.Function, send ssa.Instruction,
 }
 
 func runC16(c *Ctx) {
+	c16Extra(c)
 	c.rule("C16-R7", "PAIR: the hub neither deadlocks: every Lock/RLock in pkg/websocket is released on every path to a return (explicit or deferred Unlock)")
 	c.Sites["C16-R7#acquire-sites"] = lockReleaseAudit(c, "C16-R7", []string{wsPkg})
 	c.floor("C16-R7", 15)
@@ -537,4 +538,75 @@ func assertGuarded(ta *ssa.TypeAssert) bool {
 	}
 	walk(ta.X, 0)
 	return ok
+}
+
+
+func c16Extra(c *Ctx) {
+	c.rule("C16-R8", "ATOM/ORD: (a) a room is created in the manager's table only after looking the same name up under the same exclusive hold of RoomManager.mu (check and insert in one critical section: two first joins cannot each create a Room and lose one's members); (b) a connection is handed to the hub's register channel synchronously, before its read pump is started, so its unregister can never overtake its register and leave a dead connection registered for good")
+	// (a)
+	nIns := 0
+	for _, fn := range c.srcFuncs(wsPkg) {
+		k := 0
+		eachInstr(fn, func(_ *ssa.BasicBlock, _ int, ins ssa.Instruction) {
+			mu, ok := ins.(*ssa.MapUpdate)
+			if !ok || !loadedFromField(mu.Map, "RoomManager", "rooms") || isFreshAlloc(mu.Map.(*ssa.UnOp).X) {
+				return
+			}
+			nIns++
+			k++
+			isLookup := func(x ssa.Instruction) bool {
+				lk, ok := x.(*ssa.Lookup)
+				return ok && loadedFromField(lk.X, "RoomManager", "rooms") && (lk.Index == mu.Key || sameVal(lk.Index, mu.Key))
+			}
+			// from every exclusive acquire of a RoomManager mutex that reaches the insert: the lookup lies in between
+			bad := false
+			var path []*ssa.BasicBlock
+			nLock := 0
+			eachInstr(fn, func(_ *ssa.BasicBlock, _ int, x ssa.Instruction) {
+				call, ok := x.(*ssa.Call)
+				if !ok || (callName(call) != "sync.RWMutex.Lock" && callName(call) != "sync.Mutex.Lock") {
+					return
+				}
+				if nt, _, ok := fieldOf(call.Call.Args[0]); !ok || nt == nil || nt.Obj().Name() != "RoomManager" {
+					return
+				}
+				nLock++
+				q := &pathQuery{fn: fn, target: func(y ssa.Instruction) bool { return y == ins }, stop: isLookup}
+				if hit, p := q.after(x); hit != nil {
+					bad, path = true, p
+				}
+			})
+			c.ob("C16-R8", fnKey(fn)+"#room-created-only-after-lookup-under-same-lock-"+itoa(k), mu.Pos(), !bad && nLock > 0,
+				"a Room is stored into RoomManager.rooms without the same name having been looked up since the exclusive lock was taken (the existence check was made before, under another hold of the lock, or not at all): two connections joining a new room at once each create a Room, the later one replaces the earlier in the table, and the first connection believes it is a member of a room that does not list it", c.blockPath(path)...)
+		})
+	}
+	c.Sites["C16-R8#room-table-inserts"] = nIns
+	if nIns < 1 {
+		c.undecided("C16-R8: no insert into RoomManager.rooms found")
+	}
+	// (b)
+	nPump := 0
+	for _, fn := range c.srcFuncs(wsPkg) {
+		k := 0
+		eachInstr(fn, func(_ *ssa.BasicBlock, _ int, ins ssa.Instruction) {
+			g, ok := ins.(*ssa.Go)
+			if !ok || callName(g) != wsPath+".Connection.ReadPump" {
+				return
+			}
+			nPump++
+			k++
+			isRegister := func(x ssa.Instruction) bool {
+				snd, ok := x.(*ssa.Send)
+				return ok && loadedFromField(snd.Chan, "Hub", "register")
+			}
+			q := &pathQuery{fn: fn, target: func(y ssa.Instruction) bool { return y == ins }, stop: isRegister}
+			hit, path := q.fromEntry()
+			c.ob("C16-R8", fnKey(fn)+"#registered-before-read-pump-starts-"+itoa(k), g.Pos(), hit == nil,
+				"the read pump is started without the connection having been sent on Hub.register by this goroutine first (registration was moved into its own goroutine, or after the pump): a client that disconnects at once has its unregister processed before its register, which then adds a dead connection that is never removed, stays in rooms and keeps receiving broadcasts", c.blockPath(path)...)
+		})
+	}
+	c.Sites["C16-R8#read-pump-starts"] = nPump
+	if nPump < 1 {
+		c.undecided("C16-R8: no `go conn.ReadPump()` found")
+	}
 }
